@@ -21,8 +21,8 @@ PROPS = {
     "C12": {"profiles": ["traits", "member-instrs", "enum"], "n_quick": 4500},
     "C13": {"profiles": ["struct-flat", "enum", "tree", "trait-params", "unknowns"], "n_quick": 3600, "backends": ["s1", "s2"]},
     "C14": {"profiles": ["repeat", "trait-repeat"], "n_quick": 5400},
-    "C15": {"profiles": ["faults", "hostile", "parents", "trait-repeat", "unknowns", "shape-change"], "n_quick": 7200},
-    "C16": {"profiles": ["hostile", "enum-prim", "tree", "faults", "parents", "unknowns", "member-instrs", "shape-change"], "n_quick": 9000},
+    "C15": {"profiles": ["faults", "hostile", "parents", "trait-repeat", "unknowns", "shape-change", "enum-misuse"], "n_quick": 7200},
+    "C16": {"profiles": ["hostile", "enum-prim", "tree", "faults", "parents", "unknowns", "member-instrs", "shape-change", "enum-misuse"], "n_quick": 9000},
     "C17": {"profiles": ["struct-flat", "enum", "tree", "trait-params", "generics", "shape-change"], "n_quick": 5400},
     "C18": {"profiles": ["hostile", "struct-flat", "enum", "tree", "unknowns"], "n_quick": 5400, "backends": ["s1", "s2"]},
     "C19": {"profiles": ["faults", "hostile", "multi-counterpart", "trait-repeat", "tree"], "n_quick": 4500},
